@@ -11,6 +11,13 @@ OBLIGATIONS = [
     ob("expect", "K_EXPECT", ["CodeEXPECT", "CodeENDEXPECT", "FindAndTakeExpectError", "AddExpectError", "AsmErrPassInit", "AsmErrPassExit", "WrXErrorPos"],
        "<= 3 announced numbers, <= 3 raised numbers, all symbolic"),
 ]
-META = dict(outside=["decision skeleton of AssembleFile (pending)", "-E redirection and -q text (formatting)",
+OBLIGATIONS.append(dict(
+    name="assemblefile", src="asmfile.c", include=["as.c"], units=["asmdef.c"], stubs=["fmt_off.c"], defs=["STRINGSIZE=16", "FMT_OFF_NO_PRINTF"],
+    cuts={"as.c": ["ProcessFile", "AssembleFile_InitPass", "AssembleFile_ExitPass"]}, nobody_mode="nondet", unwind=20, unwind_fn={"harness": 8},
+    functions=["as.c:AssembleFile", "as.c:AssembleFile_WrSummary"], timeout=900,
+    bounds="<= 3 passes, arbitrary error/warning counts and repass request per pass, any combination of code/share/macro outputs",
+    assumes=["the per-pass assembler run is a stub leaving arbitrary ErrorCount/WarnCount/Repass", "frame assumption: every other callee of AssembleFile (module init, listing, tables) has no effect on ErrorCount/Repass/GlobErrFlag/output names; their bodies are 'return nondet'",
+             "file system: ghost exists-bit per output name driven by OpenFile/fopen/unlink"]))
+META = dict(outside=["main()'s final return GlobErrFlag ? 2 : 0 (one statement, read)", "-E redirection and -q text (formatting)",
                      "that every error site of the ~100 code generators goes through WrError*"],
             assumptions=["malloc never fails"])
